@@ -1,5 +1,6 @@
 import QModel.Core
 import QModel.C18
+import QGen.C17
 /-!
 # C17 — catalogued objects: executable certificate checkers
 
@@ -111,6 +112,14 @@ def handle (args : List String) : Option String :=
       let U ← parseCMat U d d
       let hs ← parseRMat hs (d * d) (d * d)
       some s!"ok {hsUnitaryCert B U hs (← parseRat? eps)} {showRat (frob2 ((embed hs).sub (hsOfUnitary B U))).re}"
+  | ["names", t] =>
+      -- a generated catalogue name table (QGen/C17.lean, regenerated from the source on every run)
+      (QGen.C17.table t).map fun l => s!"ok {showList id l}"
+  | ["isvalid", codes] => do
+      -- the generated `is_valid_state_name` on a name given as a list of character codes
+      let cs ← parseList? parseNat? codes
+      let name := String.ofList (cs.map Char.ofNat)
+      some s!"ok {QGen.C17.is_valid_state_name name} {QGen.C17.generate_state_pure_state_vector_from_name_rejects name} {QGen.C17.generate_state_density_mat_from_name_rejects name}"
   | _ => none
 
 end QM.C17
